@@ -95,8 +95,10 @@ Definition check_case (h : list obs_tx) : bool := check_history init_ledger h.
 
 Definition T (script : bool) (body : list op) : tx := {| t_script := script; t_body := body |}.
 
-(* the observation script the harness runs after each item: every slot and storagePaths of
-   the three accounts *)
+(* the observation script the harness runs after each item, on a fresh Storage: first
+   storagePaths of the three accounts (nothing has been loaded yet), then a full forEachStored
+   of each, then every slot *)
 Definition reload_body : list op :=
-  flat_map (fun a => map (fun p => ODescribe a p) [0; 1; 2; 3] ++ [OPaths a]) [1; 2; 3].
+  map OPaths [1; 2; 3] ++ map (fun a => OForEach a 200) [1; 2; 3]
+  ++ flat_map (fun a => map (fun p => ODescribe a p) [0; 1; 2; 3]) [1; 2; 3].
 Definition RL : tx := T true reload_body.
